@@ -620,7 +620,9 @@ impl MleJaccard {
         let jac = dequal as f64 / self.m as f64;
         //
         let solver = GoldenSectionSearch::new(b_inf, b_sup).unwrap();
-        let init_param = jac;
+        // the raw collision fraction can exceed b_sup (nested sets, or identical sketches when the 2 cardinal
+        // estimates differ in the last bit) : the solver needs an initial value inside [b_inf, b_sup]
+        let init_param = jac.min(b_sup).max(b_inf);
         //
         let cost = MleCost::new(dplus as f64, dless as f64, dequal as f64, u, v, self.b);
 
